@@ -104,6 +104,24 @@ func (c *VCtx) contractScope(callee *ssa.Function, ct *FuncContract, fv *FnVal, 
 }
 
 func (sc *Scope) lookup(name string) (Val, bool) {
+	if v, ok := sc.lookup1(name); ok {
+		return v, true
+	}
+	// ghost code and assertions of an inlined closure may name variables of the frames that (transitively)
+	// called it (e.g. the release closure's status cell from inside its critical-section callback)
+	if sc.fr != nil {
+		for p := sc.fr.parent; p != nil; p = p.parent {
+			n := *sc
+			n.fr, n.at, n.exitOf, n.vars = p, nil, p.curBlock, map[string]Val{}
+			if v, ok := n.lookup1(name); ok {
+				return v, true
+			}
+		}
+	}
+	return nil, false
+}
+
+func (sc *Scope) lookup1(name string) (Val, bool) {
 	c := sc.c
 	if v, ok := sc.vars[name]; ok {
 		return sc.deref(v), true
@@ -626,6 +644,16 @@ func (c *VCtx) translateCall(sc *Scope, x *ECall) Val {
 	case "calls":
 		h := c.heap(st, "G:calls", ArrSort(SRef, SInt))
 		return Select(h, arg(0))
+	case "card":
+		return T(SInt, app("card", arg(0)))
+	case "fin":
+		return T(SBool, app("fin", arg(0)))
+	case "empty":
+		return T(ArrSort(SRef, SBool), "emptyset")
+	case "add":
+		return Store(arg(0), arg(1), True)
+	case "del":
+		return Store(arg(0), arg(1), False)
 	case "written":
 		// written(x.f): this invocation has written field f of object x (thread-local ghost count > 0)
 		fe, ok := x.Args[0].(*EField)
